@@ -31,8 +31,15 @@ def describe(tier, seed):
 
 
 def _try(f, *a):
+    """Call f; a bytes argument to a decoder is wrapped in a stream with a read budget."""
+    from vmc.core.explore import BudgetExceeded
+
+    if getattr(f, "__name__", "") == "decode":
+        a = tuple(TS.CountingIO(x) if isinstance(x, (bytes, bytearray)) else x for x in a)
     try:
         return ("ok", f(*a))
+    except BudgetExceeded:
+        return ("exc", "NonTerminating", "read budget exceeded")
     except Exception as e:  # noqa
         return ("exc", type(e).__name__, str(e)[:80])
 
@@ -54,7 +61,7 @@ def stream_fails(node, v):
     if r[0] != "ok":
         return False
     enc = bytes(r[1])
-    st = BytesIO(enc + SENTINEL)
+    st = TS.CountingIO(enc + SENTINEL)
     d = _try(node.decode, st)
     return d[0] == "ok" and (st.tell() != len(enc) or st.read() != SENTINEL)
 
@@ -96,7 +103,7 @@ def check_node(rep, node, tier, idx):
                               {"type_index": idx, "tier": tier, "value_index": vi, "clause": "roundtrip"})
                 outcome = "value-differs"
             if not node.consumes_all:
-                st = BytesIO(enc + SENTINEL)
+                st = TS.CountingIO(enc + SENTINEL)
                 d2 = _try(node.decode, st)
                 calls += 1
                 if d2[0] == "ok" and (st.tell() != len(enc) or st.read() != SENTINEL):
@@ -106,7 +113,7 @@ def check_node(rep, node, tier, idx):
                     outcome = "stream-position"
                 # composition: two consecutive values from one stream
                 if prev_enc is not None and d[0] == "ok" and outcome == "ok":
-                    st = BytesIO(prev_enc + enc + SENTINEL)
+                    st = TS.CountingIO(prev_enc + enc + SENTINEL)
                     a = _try(node.decode, st)
                     bb = _try(node.decode, st)
                     calls += 2
